@@ -1,4 +1,5 @@
 import Glas.Props.C02
+import Glas.Props.C02Marks
 /-!
 # C10 — every IDE query answers on every workspace, however broken: what is proved
 
@@ -19,5 +20,15 @@ theorem parser_no_precondition_panic (n : Nat) (toks : List Kind) :
 /-- parsing terminates on every token list (explicit fuel bound, linear in the input) -/
 theorem parser_terminates (toks : List Kind) : runMain glasProg (bound glasProg toks.length) toks ≠ .oof :=
   Glas.Props.C02.C02_terminates toks
+
+/-- the first stage of every query, all parts together: on every text the model of `parse_module`
+returns a tree — the tree builder never fails, no node is left unfinished, no stale mark is used — or
+the parser's own look-ahead guard fires (the recorded C02 finding) -/
+theorem parse_total (s : List Char) :
+    (∃ t σ, Glas.SyntaxCmd.parseModel (bound glasProg (Glas.Props.C02Marks.parserToks s).length) s =
+        .ok (t, σ, Glas.SyntaxCmd.lexText s) ∧ t.leaves = Glas.SyntaxCmd.lexText s) ∨
+    Glas.SyntaxCmd.parseModel (bound glasProg (Glas.Props.C02Marks.parserToks s).length) s =
+      .error ("PANIC " ++ "stuck") :=
+  Glas.Props.C02Marks.C01_total s
 
 end Glas.Props.C10
